@@ -167,6 +167,23 @@ impl C04Monitor {
                                 p.router_keys.len(), p.child_certs.len()),
                     ));
                 }
+                // ... and its manifest lists nothing besides its CRL (a
+                // manifest that still lists the products that moved to the
+                // other key, with a CRL that revokes none of them, validates
+                // nothing - the files have other hashes now - but is not
+                // "only a manifest and CRL")
+                if role != "active" {
+                    let extra: Vec<&String> = p.listed.keys()
+                        .filter(|u| !u.ends_with(".crl")).take(4).collect();
+                    if !extra.is_empty() {
+                        issues.push((
+                            format!("non-current-key-manifest-lists-products:{role}"),
+                            format!("{at}: {ca} key {} ({role}): manifest \
+                                     number {} lists {extra:?}", p.key_id,
+                                    p.mft_number),
+                        ));
+                    }
+                }
                 // the same product under two keys of one CA and class
                 let class = roles.classes.iter().next().map(|c| c.0.clone())
                     .unwrap_or_default();
